@@ -409,9 +409,9 @@ impl RoomAuthorisations {
             // [sub_entities_validated]{C01} nested mutations are never skipped: on success every sub-entity went through the same validation
             r is Ok && old(entity_to_mutate).node_to_mutate.entity@ != system_entities::ROOM_ENT@
                 ==> subs_validated(*self, old(entity_to_mutate).sub_nodes, *verifying_key),
-            // [row_unchanged_by_validation] validation does not alter the row being validated
-            old(entity_to_mutate).node_to_mutate.entity@ != system_entities::ROOM_ENT@ ==> final(entity_to_mutate).node_to_mutate == old(entity_to_mutate).node_to_mutate
-                && final(entity_to_mutate).edge_deletions == old(entity_to_mutate).edge_deletions,
+            // [row_unchanged_by_validation]{C01,C06} validation does not alter the row being validated (a room row included): what was signed is what is written
+            final(entity_to_mutate).node_to_mutate == old(entity_to_mutate).node_to_mutate,
+            old(entity_to_mutate).node_to_mutate.entity@ != system_entities::ROOM_ENT@ ==> final(entity_to_mutate).edge_deletions == old(entity_to_mutate).edge_deletions,
             // [removal_records_in_row_room]{C01,C09} one reference-removal record per removed reference, each for the row's room
             r is Ok && old(entity_to_mutate).node_to_mutate.entity@ != system_entities::ROOM_ENT@
                 ==> logs_in_room(*final(entity_to_mutate), old(entity_to_mutate).edge_deletions_log@.len() as int),
@@ -600,8 +600,19 @@ pub struct MutationParser { x: u8 }
 //@ end
 impl MutationQuery {
     /// signs every row and reference of the mutation with the caller's key (Node::sign / Edge::sign are under contract in u4_digests)
+    /// contract: the top-level part of what unit u4b_sign_all proves of the real function (`tree_signed` of every entity); `row_signed`
+    /// is a fact only this contract establishes
     #[verifier::external_body]
-    pub fn sign_all(&mut self, signing_key: &Ed25519SigningKey) -> (r: Result<()>) { unimplemented!() }
+    pub fn sign_all(&mut self, signing_key: &Ed25519SigningKey) -> (r: Result<()>)
+        ensures
+            final(self).mutate_entities@.len() == old(self).mutate_entities@.len(),
+            r is Ok ==> forall|i: int| 0 <= i < final(self).mutate_entities@.len() ==> row_signed(#[trigger] final(self).mutate_entities@[i].node_to_mutate, *signing_key),
+    { unimplemented!() }
+}
+/// the prepared row went through a successful sign_all with this key (the row and everything under it: unit u4b_sign_all)
+pub uninterp spec fn row_signed(n: NodeToMutate, k: Ed25519SigningKey) -> bool;
+pub open spec fn mutation_rows_signed(ra: RoomAuthorisations, mq: MutationQuery) -> bool {
+    forall|i: int| 0 <= i < mq.mutate_entities@.len() ==> row_signed(#[trigger] mq.mutate_entities@[i].node_to_mutate, ra.signing_key)
 }
 /// what validate_entity_mutation establishes for one top-level entity of a mutation, as it goes on to the writer
 pub open spec fn entity_validated(ra: RoomAuthorisations, e: InsertEntity) -> bool {
@@ -629,6 +640,7 @@ pub open spec fn distinct_rooms(rooms: Seq<Room>) -> bool { forall|i: int, j: in
             invariant
                 *self == *old(self), verifying_key == vk_of(*self),
                 forall|i: int| 0 <= i < it.index@ ==> entity_validated(*self, *final(#[trigger] it.seq()[i])),
+                forall|i: int| 0 <= i < it.index@ ==> final(#[trigger] it.seq()[i]).node_to_mutate == it.seq()[i].node_to_mutate,
                 distinct_rooms(rooms@),
 //@ insert after-stmt "let verifying_key = self.signing_key.export_verifying_key();"
         proof { assert(verifying_key@ =~= vk_of(*self)@); assert(<[u8; 16] as PartialEqSpec<[u8; 16]>>::obeys_eq_spec()); }
@@ -639,6 +651,7 @@ pub open spec fn distinct_rooms(rooms: Seq<Room>) -> bool { forall|i: int, j: in
             invariant
                 *self == *old(self), verifying_key == vk_of(*self),
                 forall|i: int| 0 <= i < it.index@ + 1 ==> entity_validated(*self, *final(#[trigger] it.seq()[i])),
+                forall|i: int| 0 <= i < it.index@ + 1 ==> final(#[trigger] it.seq()[i]).node_to_mutate == it.seq()[i].node_to_mutate,
                 distinct_rooms(rooms@),
 //@ spec
         requires rooms_wf(*old(self)),
@@ -648,6 +661,8 @@ pub open spec fn distinct_rooms(rooms: Seq<Room>) -> bool { forall|i: int, j: in
             r is Ok ==> distinct_rooms(r->Ok_0@),
             // [every_entity_of_an_accepted_mutation_was_validated]{C01,C12} a mutation is accepted only if every one of its top-level entities passed validate_entity_mutation (no entity is skipped, the first refusal refuses the whole mutation); nested entities: see sub_entities_validated
             r is Ok ==> mutation_validated(*old(self), *final(mutation_query)),
+            // [rows_of_an_accepted_mutation_were_signed_with_the_users_key]{C06} every row of a mutation that goes on to the writer went through a successful sign_all with the instance's own key, and is the row that was signed: a failure to sign refuses the mutation, the validation that follows alters no row
+            r is Ok ==> mutation_rows_signed(*old(self), *final(mutation_query)),
 //@ end
 
 pub struct SendErr { x: u8 }
@@ -702,6 +717,8 @@ impl BufferedDatabaseWriter {
 //@ insert-each before-stmt "let _ = database_writer.send(query).await;"
                             // [only_validated_mutations_reach_the_writer]{C01,C12} a local mutation is handed to the writer only after validate_mutation accepted it, and it is the validated query that is handed over
                             assert(mutation_validated(*auth, wm_query(query)));
+                            // [only_signed_mutations_reach_the_writer]{C06} and every row of it was signed with the instance's own key
+                            assert(mutation_rows_signed(*auth, wm_query(query)));
 //@ spec
         requires rooms_wf(*old(auth)),
 //@ end
@@ -715,6 +732,8 @@ impl BufferedDatabaseWriter {
 //@ insert-each before-stmt "let _ = database_writer.send(query).await;"
                             // [only_validated_streamed_mutations_reach_the_writer]{C01,C12} a mutation of a mutation stream is handed to the writer only after validate_mutation accepted it
                             assert(mutation_validated(*auth, wm_query(query)));
+                            // [only_signed_streamed_mutations_reach_the_writer]{C06} and every row of it was signed with the instance's own key
+                            assert(mutation_rows_signed(*auth, wm_query(query)));
 //@ spec
         requires rooms_wf(*old(auth)),
 //@ end
@@ -777,8 +796,8 @@ impl Room {
 //@ spec
         requires rooms_wf(*self),
         ensures
-            // [room_entity_kind_unchanged_by_validation]
-            final(insert_entity).node_to_mutate.entity == old(insert_entity).node_to_mutate.entity,
+            // [room_row_unchanged_by_validation]{C01,C06} the validation of a room mutation does not alter the room row: what was signed is what is written
+            final(insert_entity).node_to_mutate == old(insert_entity).node_to_mutate,
             // [existing_room_changed_only_by_admin]{C01} a mutation of a room that already exists is accepted only if the caller is an admin of that room, as it is defined now, at the operation's date
             r is Ok && r->Ok_0 is Some && old(insert_entity).node_to_mutate.old_node is Some ==>
                 self.rooms@.contains_key(old(insert_entity).node_to_mutate.old_node->Some_0.id)
